@@ -381,4 +381,12 @@ def search(ctx):
 
 
 def probe(kf):
-    return False
+    """Replay a recorded known finding on the implementation; True if it still fails."""
+    import copy
+    import jsonpath
+
+    pr = kf["probe"]
+    try:
+        return jsonpath.patch.apply(copy.deepcopy(pr["ops"]), copy.deepcopy(pr["doc"])) != pr["expect"]
+    except Exception:  # noqa: BLE001
+        return True
